@@ -111,6 +111,7 @@ type verifDCConfig struct {
 	FinalizeEnabled bool
 	Sync, Finalize  hooks.Hook // default: disabled stub
 	Customize       hooks.Hook // nil: the controller has no customize hook
+	HooksViaService bool       // the webhooks are given as a service reference + path instead of a url
 }
 
 type verifDC struct {
@@ -148,7 +149,13 @@ func verifNewDC(w *env.World, cfg verifDCConfig) *verifDC {
 		cfg.Finalize = &verifDCHook{}
 	}
 	hookURL := "http://hook.ns/sync"
-	goodHook := func() *v1alpha1.Hook { return &v1alpha1.Hook{Webhook: &v1alpha1.Webhook{URL: &hookURL}} }
+	hookPath := "/sync"
+	goodHook := func() *v1alpha1.Hook {
+		if cfg.HooksViaService {
+			return &v1alpha1.Hook{Webhook: &v1alpha1.Webhook{Path: &hookPath, Service: &v1alpha1.ServiceReference{Name: "hook", Namespace: "ns"}}}
+		}
+		return &v1alpha1.Hook{Webhook: &v1alpha1.Webhook{URL: &hookURL}}
+	}
 	dc := &v1alpha1.DecoratorController{}
 	dc.Name = verifDCName
 	dc.Spec.Hooks = &v1alpha1.DecoratorControllerHooks{Sync: goodHook()}
